@@ -5,7 +5,7 @@
     pivoting rule); [mx n n M] = the n x n MathComp matrix of the entries of M; [\det] = MathComp's
     determinant (Leibniz formula). *)
 From mathcomp Require Import all_ssreflect all_fingroup all_algebra.
-From LP Require Import Num C04_Model C05_Model C04_Proofs_Struct C04_Proofs_Laws C05_Proofs C05_Proofs_Complete C05_Proofs_Seq C05_Proofs_Seq2 C05_Proofs_Orth C05_Proofs_Round C05_Proofs_Pivot.
+From LP Require Import Num C04_Model C05_Model C04_Proofs_Struct C04_Proofs_Laws C05_Proofs C05_Proofs_Complete C05_Proofs_Seq C05_Proofs_Seq2 C05_Proofs_Orth C05_Proofs_Round C05_Proofs_Pivot C05_Proofs_Round2 C05_Proofs_SwapHist.
 Import Order.TTheory GRing.Theory Num.Theory.
 Local Open Scope ring_scope.
 
@@ -125,6 +125,33 @@ Print Assumptions C05_orthogonal_sound.
 Theorem C05_orthogonal_nonsquare (M : mat F) : mrows M <> mcols M -> orthogonal Ops M = Ok false.
 Proof. exact (@orthogonal_nonsquare F absF sqrtF ltF leF M). Qed.
 Print Assumptions C05_orthogonal_nonsquare.
+(** "Inverse returns X that agrees with the exact inverse" (exact arithmetic, every size, every pivoting rule): whatever Inverse()
+    returns is THE inverse, and it is tied to Determinant(): X = adj(M) / det M (Cramer), det X = 1 / det M, det M != 0.
+    (hypothesis satisfiable: C05_exchange_matrix_inverts) *)
+Theorem C05_inverse_adjugate (M X : mat F) : inverse Ops M = Ok X ->
+  let n := mrows M in
+  [/\ \det (mx n n M) != 0, mx n n X = invmx (mx n n M),
+      mx n n X = (\det (mx n n M))^-1 *: \adj (mx n n M) & \det (mx n n X) = (\det (mx n n M))^-1].
+Proof. exact (@inverse_adjugate F absF sqrtF ltF leF M X). Qed.
+Print Assumptions C05_inverse_adjugate.
+(** "(so X*M is the identity to that accuracy and M*X to one further factor of the condition number)": the two identities behind
+    this sentence and behind the S4 clauses, for an invertible A and ANY X (e.g. the doubles Inverse() returned, at their exact
+    values): forward error = left residual * A^-1;  right residual = A * left residual * A^-1.  (These are identities, NOT the
+    accuracy bound c*n*kappa*eps itself, which is not a theorem.) *)
+Theorem C05_inverse_error_identities n (A X : 'M[F]_n) : A \in unitmx ->
+  X - invmx A = (X *m A - 1%:M) *m invmx A /\ A *m X - 1%:M = A *m (X *m A - 1%:M) *m invmx A.
+Proof. exact (@inverse_error_identities F n A X). Qed.
+Print Assumptions C05_inverse_error_identities.
+(** "changes sign under a row swap", for a history of ANY number of row exchanges on one object (induction over the history):
+    after  std::swap(M[i1], M[j1]); ...; std::swap(M[ik], M[jk])  Determinant() answers (-1)^c det A, c = number of exchanges with
+    i <> j, Invertible() answers as before, and the entries are the rows of A in the order of the composed permutation *)
+Theorem C05_swaps_then_det n (sw : seq ('I_n.+1 * 'I_n.+1)) (A : mat F) : wf_mat A -> mrows A = n.+1 -> mcols A = n.+1 ->
+  let d := \det (mx n.+1 n.+1 A) in
+  exists A', [/\ wf_mat A', mx n.+1 n.+1 A' = row_perm (swap_perm sw) (mx n.+1 n.+1 A) &
+    srun Ops (swap_ops sw ++ [:: @QDet F; @QInvertible F]) A =
+    Ok (A', (map (fun _ => @ONone F) sw ++ [:: ODet ((-1) ^+ swap_count sw * d); @OFlag F (d != 0)])%list)].
+Proof. exact (@swaps_then_det F absF sqrtF ltF leF n sw A). Qed.
+Print Assumptions C05_swaps_then_det.
 End AnyField.
 
 Section AnyArithmetic.
@@ -206,6 +233,35 @@ Theorem C05_href_plain_calls (ops : list (@sop T)) (M0 : mat T) :
   hrun AOps (List.map (@HCall T) ops) M0 = rbind (srun AOps ops M0) (fun st => Ok ((st.1, [::]), st.2)).
 Proof. exact (@href_plain_calls T AOps ops M0). Qed.
 Print Assumptions C05_href_plain_calls.
+(** EVERY arithmetic, every size (the IEEE doubles included, with NaN / inf / overflow / underflow): on a square matrix
+    Determinant() returns a number (the recursion never runs out of its depth bound, Sub_Matrix never fails), Invertible() is the
+    test "that number != 0.0", Inverse() terminates with a diagnostic when that number == 0.0, and otherwise either terminates with
+    the diagnostic "Matrix is singular." or returns an N x N matrix - there is no other outcome (no out-of-range access, no
+    unbounded recursion).  Which of the two it is in floating point is NOT decided here (see K-C05-1). *)
+Theorem C05_any_arith_square n (M : mat T) : wf_mat M -> mrows M = n.+1 -> mcols M = n.+1 ->
+  exists d, [/\ determinant AOps M = Ok d,
+                invertible AOps M = Ok (~~ neqb AOps d (n0 AOps)),
+                neqb AOps d (n0 AOps) -> inverse AOps M = Exit &
+                inverse AOps M = Exit \/
+                exists X, [/\ inverse AOps M = Ok X, wf_mat X, mrows X = n.+1 & mcols X = n.+1]].
+Proof. exact (@any_arith_square T AOps n M). Qed.
+Print Assumptions C05_any_arith_square.
+(** "a ... non-square matrix terminates with a diagnostic instead of yielding numbers", every arithmetic *)
+Theorem C05_any_arith_nonsquare (M : mat T) : mrows M <> mcols M ->
+  [/\ determinant AOps M = Exit, invertible AOps M = Ok false, inverse AOps M = Exit & orthogonal AOps M = Ok false].
+Proof. exact (@any_arith_nonsquare T AOps M). Qed.
+Print Assumptions C05_any_arith_nonsquare.
+(** a history of ANY number of row exchanges, every arithmetic: pure data movement - the entries afterwards are the rows of the
+    start in the order of the composed permutation (so nothing is rounded and nothing else is remembered) *)
+Theorem C05_swaps_entries n (sw : seq ('I_n.+1 * 'I_n.+1)) (A : mat T) : wf_mat A -> mrows A = n.+1 -> mcols A = n.+1 ->
+  exists A', [/\ srun AOps (swap_ops sw) A = Ok (A', map (fun _ => @ONone T) sw), wf_mat A', mrows A' = n.+1, mcols A' = n.+1 &
+                 forall a b : 'I_n.+1, ment AOps A' a b = ment AOps A (swap_perm sw a) b].
+Proof. exact (@swaps_run T AOps n sw A). Qed.
+Print Assumptions C05_swaps_entries.
+(** non-vacuity of the shape premises in every arithmetic; a transpose that is defined *)
+Theorem C05_any_arith_premises_example : let M := mk_mat 3 3 (fun _ _ => n1 AOps) in
+  [/\ wf_mat M, mrows M = 3%N & mcols M = 3%N] /\ mrows (mk_mat 2 3 (fun _ _ => n1 AOps)) <> mcols (mk_mat 2 3 (fun _ _ => n1 AOps)).
+Proof. exact (@any_arith_premises_example T AOps). Qed.
 End AnyArithmetic.
 
 Section RealField.
@@ -321,4 +377,57 @@ Theorem C05_rounding_premises_example : let M := mk_mat 3 3 (fun i j => if i == 
   [/\ wf_mat M, mrows M = 3%N & mcols M = 3%N].
 Proof. exact (@premises_example R). Qed.
 Print Assumptions C05_rounding_premises_example.
+(** the other determinant clauses in ROUNDED arithmetic, every size:  E = (1+u)^(det_err_exp N) - 1  as above.
+    "transpose-invariant": Determinant() of M and of M.Transpose() differ by at most 2 E perm|M| *)
+Theorem C05_det_round_transpose n (M Mt : mat R) : 0 <= u -> std_model fadd fsub fmul u ->
+  wf_mat M -> mrows M = n.+1 -> mcols M = n.+1 -> transpose Ops M = Ok Mt ->
+  exists d dt, [/\ determinant Ops M = Ok d, determinant Ops Mt = Ok dt &
+                   `|dt - d| <= 2%:R * ((1 + u) ^+ det_err_exp n.+1 - 1) * pm (mx n.+1 M)].
+Proof. exact (fun H0 SM => @det_round_transpose R fadd fsub fmul fdiv sqrtF leF u H0 SM n M Mt). Qed.
+Print Assumptions C05_det_round_transpose.
+(** "changes sign under a row swap": M' = the rows of M in the order of ANY permutation t (k exchanges: sign (-1)^k);
+    one exchange i <> j:  |d' + d| <= 2 E perm|M| *)
+Theorem C05_det_round_row_perm n (M M' : mat R) (t : 'S_n.+1) : 0 <= u -> std_model fadd fsub fmul u ->
+  wf_mat M -> mrows M = n.+1 -> mcols M = n.+1 -> wf_mat M' -> mrows M' = n.+1 -> mcols M' = n.+1 ->
+  (forall (a b : 'I_n.+1), ment Ops M' a b = ment Ops M (t a) b) ->
+  exists d d', [/\ determinant Ops M = Ok d, determinant Ops M' = Ok d' &
+                   `|d' - (-1) ^+ t * d| <= 2%:R * ((1 + u) ^+ det_err_exp n.+1 - 1) * pm (mx n.+1 M)].
+Proof. exact (fun H0 SM => @det_round_row_perm R fadd fsub fmul fdiv sqrtF leF u H0 SM n M M' t). Qed.
+Print Assumptions C05_det_round_row_perm.
+Theorem C05_det_round_row_swap n (M M' : mat R) (i j : 'I_n.+1) : 0 <= u -> std_model fadd fsub fmul u ->
+  wf_mat M -> mrows M = n.+1 -> mcols M = n.+1 -> wf_mat M' -> mrows M' = n.+1 -> mcols M' = n.+1 ->
+  i != j -> (forall (a b : 'I_n.+1), ment Ops M' a b = ment Ops M (tperm i j a) b) ->
+  exists d d', [/\ determinant Ops M = Ok d, determinant Ops M' = Ok d' &
+                   `|d' + d| <= 2%:R * ((1 + u) ^+ det_err_exp n.+1 - 1) * pm (mx n.+1 M)].
+Proof. exact (fun H0 SM => @det_round_row_swap R fadd fsub fmul fdiv sqrtF leF u H0 SM n M M' i j). Qed.
+Print Assumptions C05_det_round_row_swap.
+(** ... as a statement about ONE object across a history of any number of row exchanges: d = Determinant() before, d' = after *)
+Theorem C05_swaps_then_det_rounded n (sw : seq ('I_n.+1 * 'I_n.+1)) (A : mat R) : 0 <= u -> std_model fadd fsub fmul u ->
+  wf_mat A -> mrows A = n.+1 -> mcols A = n.+1 ->
+  exists A' d d', [/\ determinant Ops A = Ok d,
+    srun Ops (swap_ops sw ++ [:: @QDet R]) A = Ok (A', (map (fun _ => @ONone R) sw ++ [:: ODet d'])%list) &
+    `|d' - (-1) ^+ swap_count sw * d| <= 2%:R * ((1 + u) ^+ det_err_exp n.+1 - 1) * pm (mx n.+1 A)].
+Proof. exact (fun H0 SM => @swaps_then_det_rounded R fadd fsub fmul fdiv sqrtF leF u H0 SM n sw A). Qed.
+Print Assumptions C05_swaps_then_det_rounded.
+(** "equals the product of the diagonal for triangular matrices" (lower or upper): a RELATIVE error bound E *)
+Theorem C05_det_round_triangular n (M : mat R) : 0 <= u -> std_model fadd fsub fmul u ->
+  wf_mat M -> mrows M = n.+1 -> mcols M = n.+1 ->
+  (forall i j, (i < j < n.+1)%N -> ment Ops M i j = 0) \/ (forall i j, (j < i < n.+1)%N -> ment Ops M i j = 0) ->
+  exists2 d, determinant Ops M = Ok d &
+             `|d - \prod_(0 <= i < n.+1) ment Ops M i i| <= ((1 + u) ^+ det_err_exp n.+1 - 1) * `|\prod_(0 <= i < n.+1) ment Ops M i i|.
+Proof. exact (fun H0 SM => @det_round_triangular R fadd fsub fmul fdiv sqrtF leF u H0 SM n M). Qed.
+Print Assumptions C05_det_round_triangular.
+(** the facts about perm|A| these rest on: invariant under transposition and under every row permutation; the product of the
+    |diagonal| for a triangular matrix *)
+Theorem C05_perm_invariants n (A : 'M[R]_n) (t : 'S_n) :
+  [/\ pm A^T = pm A, pm (row_perm t A) = pm A & (forall i j : 'I_n, (i < j)%N -> A i j = 0) -> pm A = \prod_i `|A i i|].
+Proof. exact (And3 (pm_tr A) (pm_row_perm t A) (@pm_trig R n A)). Qed.
+Print Assumptions C05_perm_invariants.
+(** non-vacuity: ((1,0,0),(2,2,0),(3,3,3)) satisfies the triangular premises; a transpose that is defined *)
+Theorem C05_triangular_premises_example : let M := mk_mat 3 3 (fun i j => if (j <= i)%N then i.+1%:R else 0 : R) in
+  [/\ wf_mat M, mrows M = 3%N, mcols M = 3%N, (forall i j, (i < j < 3)%N -> ment Ops M i j = 0) & ment Ops M 2 2 = 3%:R].
+Proof. exact (@triangular_premises_example R fadd fsub fmul fdiv sqrtF leF). Qed.
+Theorem C05_transpose_premise_example : let M := mk_mat 3 3 (fun i j => if (i == j)%N then n1 Ops else n0 Ops) in
+  exists Mt, transpose Ops M = Ok Mt.
+Proof. exact (@transpose_premise_example R Ops). Qed.
 End RoundedArithmetic.
